@@ -34,7 +34,20 @@ def crosshair(fn, flags, timeout, which=0):
         v = "counterexample"
     else:
         v = "inconclusive"
-    return {"function": fn, "flags": flags, "which": which, "verdict": v, "output": out[-700:], "seconds": round(time.time() - t0, 1)}
+    call = None
+    replayed = None
+    if v == "counterexample":
+        m = re.search(r"when calling (independent\w*\(.*?\))\s*(?:\(which returns|$)", out, re.S | re.M)
+        call = m.group(1) if m else None
+        if call is not None and len(call) < 4000:
+            # replay natively (no tracing) in a fresh interpreter before anything is reported
+            code = "import harness.ch_c12 as H\ntry:\n    r = H.%s\nexcept Exception as e:\n    r = 'raises ' + type(e).__name__\nprint('REPLAY', r)" % call
+            q = subprocess.run([os.path.join(HERE, ".venv", "bin", "python"), "-W", "ignore", "-c", code], cwd=HERE, env=env,
+                               capture_output=True, text=True, timeout=600)
+            mm = re.search(r"REPLAY (.*)", q.stdout)
+            replayed = mm.group(1).strip() if mm else "no result: " + (q.stderr or "")[-200:]
+    return {"function": fn, "flags": flags, "which": which, "verdict": v, "output": out[-700:], "call": call, "replayed": replayed,
+            "seconds": round(time.time() - t0, 1)}
 
 
 def hist_job(j):
@@ -103,10 +116,12 @@ def main():
         if r["verdict"] == "confirmed":
             confirmed += 1
         elif r["verdict"] == "counterexample":
-            m = re.search(r"when calling (independent\w*\(.*\))", r["output"], re.S)
-            call = (m.group(1) if m else r["output"])[:600]
+            call = r.get("call")
+            if call is None or r.get("replayed") in (None, "True") or str(r.get("replayed")).startswith("no result"):
+                rep.harness_error("CrossHair counterexample for flags %r does not replay natively (%s): %s" % (r["flags"], r.get("replayed"), (call or r["output"])[:300]))
+                continue
             rep.violation("havoc:%s:%s" % (r["flags"], re.sub(r"-?\d{3,}", "N", call)[:200]),
-                          "a value left in a module global changes the specification: %s [flags %r]" % (call, r["flags"]), r)
+                          "a value left in a module global changes the specification: %s replays as %s [flags %r]" % (call[:600], r["replayed"], r["flags"]), r)
         else:
             rep.harness_error("CrossHair inconclusive for flags %r: %s" % (r["flags"], r["output"][-300:]))
     base = {}
